@@ -8,7 +8,9 @@ SPEC = {
              # the real worker pools of all four protocols under concurrent load incl. unchanged template refreshes: a crash of any worker goroutine kills the run
              {"kind": "pipeline", "quick": 48, "thorough": 1600, "runner": {"pkg": "./vflow", "test": "TestVerifPipeline", "race": False}}],
     "rule": "the malformed-heavy streams of all four protocols: sessions of 1..8 datagrams over several exporter address forms with "
-            "hostile templates in force (zero-length fields, zero fields, reserved ids, 65535 markers, length fields 0/boundary/0xffff, "
+            "hostile templates in force (zero-length fields, zero fields - also as a field-count-0 record in front of other records of a "
+            "template set, followed by data for it: that datagram is expected back with the records of its other sets, tag F30 -, reserved ids, "
+            "65535 markers, length fields 0/boundary/0xffff, "
             "truncation, bit flips, trailing garbage), each datagram decoded AND marshalled by the real code under recover(), a watchdog "
             "and ulimit -v; crashed cases are attributed by restarting the runner; non-trivial = decoded (not rejected); distinct = case line",
     "assumptions": ["Go slice / map / integer semantics as transcribed in the models; every panic-capable expression of the anchored "
